@@ -6,7 +6,7 @@ def run(ctx):
     vlib.seq_component(ctx, "Roaring", "Roaring", "RoaringImpl", "MC_quick.cfg" if quick else "MC_thorough.cfg",
                        "RoaringTrace", "Trace.cfg" if quick else "Trace_thorough.cfg", "roaring", ["setz"],
                        walk_mode="cover", rand_n=60 if quick else 600, rand_len=60 if quick else 120,
-                       trace_every=1 if quick else 4, walk_args=["-maxlen", "40"])
+                       trace_every=1 if quick else 4, walk_args=["-maxlen", "40"], env={"VERIF_NHI": "2" if quick else "3"})
     ctx.assumptions += ["the real 4096-value threshold is reached with a filler block of 4094 consecutive low values per bucket (Prefill/Unfill macro steps, inserted in ascending, descending or interleaved order); enumerations are compared with the complete block collapsed into one token",
                         "bucket keys {0, 65535} (quick) / {0, 1, 65535} (thorough), model low values {0, 1, 65535}"]
 
